@@ -131,7 +131,9 @@ class ExtendedEOF(EOF):
             X_extended.append(X.shift(sample=-i))
         X_extended = xr.concat(X_extended, dim="embedding")
         n_samples_cut = (embedding - 1) * tau
-        X_extended = X_extended.isel(sample=slice(None, -n_samples_cut))
+        # (with a single embedding nothing is cut; slice(None, -0) would be empty)
+        if n_samples_cut > 0:
+            X_extended = X_extended.isel(sample=slice(None, -n_samples_cut))
         X_extended.coords.update({"embedding": shift})
 
         # Perform standard PCA on extended data
